@@ -50,3 +50,11 @@ def c10c_native_ref(ex, st):
     from pyvc.libext.c10c_numpy import NATIVE_REF
     from pyvc.vals import ANY, V, Val
     return V(Val.ref(NATIVE_REF), ANY)
+
+
+@spec('c10c_in')
+def c10c_in(ex, st, x, d):
+    """x in d for a dictionary given as a bare reference (c10c_raw / c10c_native_ref): the domain bit, nothing else"""
+    import z3
+    from pyvc.vals import as_ref, v_bool
+    return v_bool(z3.Select(st.read(as_ref(d), '$dom'), ex.box(st, x)))
